@@ -548,6 +548,9 @@ class BootEngine(object):
             # sleeps (the pauses between boot datagrams, the wait for the
             # machine to come up) last longer than asked
             rates["sleep_overshoot"] = [0.1, 0.5][t.draw(2)]
+        if t.draw(4) == 0:
+            # connecting (looking the host name up) takes up to seconds
+            rates["slow_connect"] = 0.5
         self.policy = FaultPolicy(rates, timeout=0.05, jitter=0.0,
                                   fifo_requests=True)
         self.net = SimNetwork(w, self.policy)
